@@ -362,7 +362,9 @@ func (eng *Engine) checkProperty(prop, tier string) int {
 		"seed":        seedFromEnv(),
 		"level":       "proof",
 		"coverage": map[string]interface{}{
-			"obligations":               nObl,
+			// obligations claimed by this check: those listed as open findings are reported, not claimed
+			"obligations":               nObl - nKnown,
+			"obligations_generated":     nObl,
 			"discharged":                nDis,
 			"known_finding_obligations": nKnown,
 			"checker_cmd":               fmt.Sprintf("/verif/bin/h2vc -tier %s check %s", tier, id),
@@ -383,10 +385,14 @@ func (eng *Engine) checkProperty(prop, tier string) int {
 		"wall_s":      round2(time.Since(t0).Seconds() + eng.loadSecs),
 		"violations":  violations,
 	}
-	_ = os.MkdirAll(filepath.Join(verif, "evidence"), 0o755)
+	evDir := filepath.Join(verif, "evidence")
+	if d := os.Getenv("H2VC_EVIDENCE_DIR"); d != "" {
+		evDir = d // runs against deliberately changed sources keep their evidence apart
+	}
+	_ = os.MkdirAll(evDir, 0o755)
 	b, _ := json.MarshalIndent(ev, "", " ")
 	if prop != "" {
-		_ = os.WriteFile(filepath.Join(verif, "evidence", id+".json"), append(b, '\n'), 0o644)
+		_ = os.WriteFile(filepath.Join(evDir, id+".json"), append(b, '\n'), 0o644)
 	}
 	fmt.Printf("h2vc: property=%s tier=%s functions=%d obligations=%d discharged=%d known=%d canaries=%d/%d violations=%d wall=%.1fs\n",
 		id, tier, len(execs), nObl, nDis, nKnown, nCanaryOK, nCanary, violations, time.Since(t0).Seconds()+eng.loadSecs)
